@@ -582,3 +582,10 @@ def run(ctx):
     ctx.borrow(c04.run, {'C04.R2': 'C20.R11', 'C04.R6': 'C20.R12'},
                'a request that is taken out of the queue and then dropped, or a wait loop with another exit, leaves a '
                'client thread blocked forever or working on freed memory')
+    import rules.C09 as _c09
+    _c09.symbol_layout_rule(ctx, 'C20.R17')
+    ctx.rule('C20.R18', 's.substr(k, ...) with a constant start k > 0 throws std::out_of_range for a shorter string and ebusd catches '
+             'nothing: on every path to such a call the length known for s (from tests of size()/length()/empty(), of a local '
+             'copy of the size, of a prefix comparison, of a character s[i], or of a successful find) reaches k; a string that '
+             'is tested, but only for a shorter length, is a violation', minimum=10)
+    common.substr_bound_rule(ctx, 'C20.R18', lambda f: in_scope(f) or f.relfile.startswith(('src/ebusd/mqtthandler.', 'src/ebusd/knxhandler.')), 10)
